@@ -24,7 +24,8 @@ THEOREMS = ["layout_matches_standard", "banks_match_standard", "no_overlap", "oc
             "interpret_per_standard", "interpret_total", "interpret_generic", "mask_exact", "tmask_exact",
             "range_invalid", "scale_byte_invalid", "be_cons", "be_bound", "signedByte_spec",
             "unit_scaled_value", "temperature_value", "decimal_value", "version_byte", "flag_bit",
-            "text_value", "roundtrip_number", "roundtrip_string", "roundtrip_declared_numbers"]
+            "text_value", "roundtrip_number", "roundtrip_string", "roundtrip_declared_numbers",
+            "roundtrip_signed", "signed_overflow"]
 TRUSTED = ["hand-written model Model/MemValue.lean of check_raw / is_valid / raw_to_value / value_to_raw / "
            "from_list (dali/memory/*.py), tied by this correspondence: exhaustive for every 1- and 2-byte value, "
            "boundary + random raw strings for wider ones",
@@ -35,8 +36,9 @@ TRUSTED = ["hand-written model Model/MemValue.lean of check_raw / is_valid / raw
 ASSUMPTIONS = ["raw data are byte values 0..255 and have the value's declared length (what from_list / read_raw "
                "hand to the interpretation)",
                "no declared value is signed (rowOf refuses signed values: the table obligation would fail)"]
-PARTIAL = ("round trip proved for unsigned plain numbers and strings; the signed branch of value_to_raw / "
-           "from_bytes is modelled and tied by the correspondence (no declared value uses it) but has no theorem; "
+PARTIAL = ("round trip proved for plain numbers (unsigned, and the signed two's-complement branch that no declared "
+           "value uses but the class offers: roundtrip_signed / signed_overflow, tied through values derived in a "
+           "scratch bank) and strings; "
            "value_to_raw of scaled / fixed-scale / temperature / version values is the plain integer encoding in "
            "the library (not an inverse of raw_to_value) and is only tied, not specified; "
            "defaults / reset values of locations are generated but not part of the transcribed layout")
@@ -266,6 +268,106 @@ def inverse_suite(ctx, corr, plug, vals, model):
         corr.count("value_to_raw", len(req))
 
 
+def signed_suite(ctx, corr, plug, vals, model):
+    """the `signed = True` branch of NumericValue: no declared value sets it, but the class supports it (a vendor
+    bank may).  From one declared plain number per width and per (MASK, TMASK) support, a value is DERIVED in a
+    scratch bank with the sign flag set; its accessors are compared with the model of the same coding with the flag
+    set (`derived … 1 <mask> <tmask>`, patterns as the real metaclass computed them), all raw strings for widths 1
+    and 2, boundaries + random otherwise; the two's-complement round trip (theorem `roundtrip_signed`) and the
+    refusal of numbers that do not fit (`signed_overflow`) are evaluated on the real code."""
+    from dali.memory import location as L
+    from dali.memory.location import FlagValue
+    rng = ctx.rng
+    seen, parents = set(), []
+    for cls, d in vals:
+        if d["r2v"] == ".numeric" and d["v2r"] == ".numeric" and not d["signed"]:
+            k = (len(d["locs"]), d["mask_supported"], d["tmask_supported"], d["min_value"], d["max_value"])
+            if k not in seen:
+                seen.add(k)
+                parents.append((cls, d))
+    for cls, d in parents:
+        n = len(d["locs"])
+        key = "%s/%s[signed]" % (d["bank"], d["name"])
+        scratch = L.MemoryBank(242, 0xfe)
+
+        def derive(par=cls, b=scratch, w=n):
+            class Derived(par):
+                bank = b
+                locations = L.MemoryRange(0x10, 0x10 + w - 1, default=0, type_=L.MemoryType.ROM)
+                signed = True
+            return Derived
+        st, D = outcome(derive)
+        if st != "ok":
+            corr.violate("layout:derive", {"parent": d["name"], "signed": True}, "declared", D)
+            continue
+        half = 1 << (8 * n - 1)
+        m = getattr(D, "mask", None) if d["mask_supported"] else None
+        t = getattr(D, "tmask", None) if d["tmask_supported"] else None
+        if d["mask_supported"] and m != (half - 1).to_bytes(n, "big"):
+            corr.violate("mem:%s:mask" % key, {"value": key}, (half - 1).to_bytes(n, "big").hex(), repr(m),
+                         "MASK of a signed value is the largest positive number")
+        if d["tmask_supported"] and t != (half - 2).to_bytes(n, "big"):
+            corr.violate("mem:%s:tmask" % key, {"value": key}, (half - 2).to_bytes(n, "big").hex(), repr(t))
+        pre = "derived %s %s 1 %s %s " % (d["bank"], d["name"], "none" if m is None else hx(m),
+                                          "none" if t is None else hx(t))
+        raws, exhaustive = raws_for(D, d, rng, ctx.thorough)
+        for lim in (d["min_value"], d["max_value"]):
+            if lim is not None and n > 2:
+                for k2 in (-1, 0, 1):
+                    if -half <= lim + k2 < half:
+                        raws.append((lim + k2).to_bytes(n, "big", signed=True))
+        if exhaustive and n == 2 and not ctx.thorough:
+            raws = [r for r in raws if r[1] in (0, 1, 0x7f, 0x80, 0xfe, 0xff) or r[0] in (0, 0x7f, 0x80, 0xff)
+                    or rng.random() < 0.05]
+        req, impl = [], []
+        for raw in raws:
+            lst = [None] * 0x10 + list(raw)
+            req.append(pre + "interp " + hx(raw))
+            impl.append(run(lambda: D.from_list(lst)))
+            want = int.from_bytes(raw, "big", signed=True)
+            r2 = run(lambda: D.raw_to_value(raw))
+            if r2 != "ok int %d" % want:
+                corr.violate("mem:%s:raw_to_value" % key, {"value": key, "raw": hx(raw)}, "ok int %d" % want, r2,
+                             "a signed number is read as two's complement, big-endian")
+        for raw in (raws if len(raws) <= 256 else [raws[rng.randrange(len(raws))] for _ in range(96)]):
+            req.append(pre + "check " + hx(raw))
+            impl.append(run(lambda: D.check_raw(raw),
+                            lambda f: "ok none" if f is None else "ok " + f.name if isinstance(f, FlagValue)
+                            else "ok other"))
+            req.append(pre + "r2v " + hx(raw))
+            impl.append(run(lambda: D.raw_to_value(raw)))
+        args = [0, 1, -1, 127, 128, -128, -129, 255, 256, half - 1, half, half - 2, -half, -half - 1, -half + 1,
+                2 * half - 1, 2 * half, True, False, "MASK", "TMASK", "x", None, 1.5]
+        args += [rng.randrange(-half - 3, half + 3) for _ in range(200 if ctx.thorough else 60)]
+        for x in args:
+            a = run(lambda: D.value_to_raw(x),
+                    lambda b: "ok " + hx(b) if isinstance(b, (bytes, bytearray)) else "ok other")
+            req.append(pre + "v2r " + wtok(x))
+            impl.append(a)
+            if isinstance(x, int) and not isinstance(x, bool):
+                if -half <= x < half:
+                    back = "?"
+                    if a.startswith("ok "):
+                        raw = bytes.fromhex(a[3:]) if a[3:] != "-" else b""
+                        back = run(lambda: D.raw_to_value(raw)) if len(raw) == n else "wrong length"
+                    if back != "ok int %d" % x:
+                        corr.violate("mem:%s:roundtrip" % key, {"value": key, "number": x},
+                                     "raw_to_value(value_to_raw(x)) == x", "%s -> %s" % (a, back))
+                    corr.nontrivial((key, "roundtrip-signed"))
+                elif a != "err OverflowError":
+                    corr.violate("mem:%s:overflow" % key, {"value": key, "number": x}, "err OverflowError", a,
+                                 "a number that does not fit the signed width must be refused")
+        ans = model.batch(req)
+        bad = 0
+        for r, a, mm in zip(req, impl, ans):
+            if a != mm:
+                bad += 1
+                if bad <= 3:
+                    corr.disagree("signed", r, mm, a)
+        corr.count("signed-derived(exhaustive 1 byte, boundary+random wider)", len(req))
+    corr.count("signed parents", len(parents))
+
+
 KIND = {".plain": "raw", ".numeric": "number", ".scaled": "unitScaled", ".string": "text", ".binary": "flagBit",
         ".version": "version", ".cct": "cct", ".lightDist": "lightDist"}
 
@@ -450,6 +552,7 @@ def correspond(ctx, corr):
     declaration_suite(ctx, corr)
     interp_suite(ctx, corr, plug, vals, model)
     inverse_suite(ctx, corr, plug, vals, model)
+    signed_suite(ctx, corr, plug, vals, model)
     corr.exhaustive["interpret: every value of width 1 and 2, all raw strings"] = True
     corr.exhaustive["layout: every declared value and bank"] = True
     from dali.memory import energy
